@@ -45,6 +45,45 @@ pub fn substitute(b: B, sql: &str, lits: &[String]) -> Result<String, String> {
     Ok(out)
 }
 
+pub static CONTENT_P: std::sync::atomic::AtomicUsize = std::sync::atomic::AtomicUsize::new(0);
+pub static CONTENT_I: std::sync::atomic::AtomicUsize = std::sync::atomic::AtomicUsize::new(0);
+pub static CONTENT_SEEN: std::sync::atomic::AtomicUsize = std::sync::atomic::AtomicUsize::new(0);
+
+/// The model line ends with ` safe:PI content:PI` (P = parameterised writer, I = inline writer):
+/// `content` is the hypothesis of the theorem `render_safe`, `safe` its conclusion evaluated on this case.
+/// The flags are not part of the comparison (except `safe` where the caller keeps it); how often the
+/// theorem's hypothesis holds is counted, and a case with the hypothesis but without the conclusion
+/// would contradict the theorem and is made to disagree.
+pub fn strip_flags(keep_safe: bool) -> Box<dyn Fn(&str) -> String + Send> {
+    use std::sync::atomic::Ordering::Relaxed;
+    Box::new(move |m: &str| {
+        let mut line = m.to_string();
+        let mut content = (false, false);
+        if let Some(i) = line.rfind(" content:") {
+            let f = line[i + 9..].as_bytes().to_vec();
+            content = (f.first() == Some(&b'1'), f.get(1) == Some(&b'1'));
+            line.truncate(i);
+            CONTENT_SEEN.fetch_add(1, Relaxed);
+            if content.0 { CONTENT_P.fetch_add(1, Relaxed); }
+            if content.1 { CONTENT_I.fetch_add(1, Relaxed); }
+        }
+        if let Some(i) = line.rfind(" safe:") {
+            let f = line[i + 6..].as_bytes().to_vec();
+            let safe = (f.first() == Some(&b'1'), f.get(1) == Some(&b'1'));
+            if (content.0 && !safe.0) || (content.1 && !safe.1) { return format!("{line} CONTRADICTS-render_safe"); }
+            if !keep_safe { line.truncate(i); }
+        }
+        line
+    })
+}
+
+pub fn report_flags(ctx: &mut Ctx) {
+    use std::sync::atomic::Ordering::Relaxed;
+    ctx.count_by("render_safe.cases_seen", CONTENT_SEEN.load(Relaxed));
+    ctx.count_by("render_safe.hypothesis_holds.parameterised", CONTENT_P.load(Relaxed));
+    ctx.count_by("render_safe.hypothesis_holds.inline", CONTENT_I.load(Relaxed));
+}
+
 pub fn run(ctx: &mut Ctx, prop: &str) {
     ctx.rule = "seeded generator over the statement AST (all five statement kinds, sub-queries in FROM / IN / EXISTS / CTEs / set operations, CASE, value lists, templates, LIMIT/OFFSET, window frames, upsert, RETURNING, every modelled value variant) x 3 backends; each recipe is built through the public API, rendered by build / to_string / build_any / build_collect* and compared with the Lean statement model; the property's relations are evaluated on the crate's output with independent reference lexers".into();
     let n = if ctx.tier_thorough { 60000 } else { 6000 };
@@ -65,8 +104,8 @@ pub fn run(ctx: &mut Ctx, prop: &str) {
         let must_be_safe = tame && r.is_some() && !g.bracket_mark && !g.raw_quoted;
         let exp = if must_be_safe { format!("{} safe:11", expect_line(&r)) } else { expect_line(&r) };
         let sq = recipe.clone();
-        if must_be_safe { ctx.count("safe.required"); ctx.case(format!("stmt {} {}", b.name(), recipe), exp, true, &move || format!("{} {}", b.name(), sq)); }
-        else { ctx.case_norm(format!("stmt {} {}", b.name(), recipe), exp, true, &move || format!("{} {}", b.name(), sq), Box::new(|m: &str| match m.rfind(" safe:") { Some(i) => m[..i].to_string(), None => m.to_string() })); }
+        if must_be_safe { ctx.count("safe.required"); }
+        ctx.case_norm(format!("stmt {} {}", b.name(), recipe), exp, true, &move || format!("{} {}", b.name(), sq), strip_flags(must_be_safe));
         let Some(r) = r else { continue };
         ctx.count(&format!("values.{}", match r.values.len() { 0 => "0", 1..=3 => "1-3", 4..=9 => "4-9", _ => "10+" }));
 
